@@ -1,4 +1,5 @@
 import OnetVerif.Model.Util
+import OnetVerif.Generated
 /-! Model for property C08: the server-to-server TLS handshake of `network/tls.go` and what the
 router does with an authenticated connection (`network/router.go`).  Symbolic (Dolev–Yao):
 keys, nonces and signatures are terms, `schnorr.Verify` succeeds iff the term matches.  What is
@@ -202,6 +203,19 @@ def pairHandshake (s : Suite) (a b them : Key) (ta tb : TlsKey) (na nb : Nonce) 
     | none => some Check.oneRaw
     | some c => verifyPeer s none nb [c]
   (dial, acc)
+
+/-! ### the dialler's retry loop (tls.go:484-508) -/
+
+/-- `NewTLSConn`: up to `maxRetry` dial attempts, all with the **one** verifier made before the loop
+(same nonce, same expected key).  What answers at the address may differ from attempt to attempt:
+`none` = the attempt failed before a certificate was seen (refused, reset, aborted handshake),
+`some raw` = that chain was presented.  Result: the number of the attempt that became the connection. -/
+def newTLSConn (maxRetry : Nat) (s : Suite) (them : Key) (n : Nonce)
+    (attempts : List (Option (List Cert))) : Option Nat :=
+  (attempts.take maxRetry).findIdx? fun a =>
+    match a with
+    | some raw => (verifyPeer s (some them) n raw).isNone
+    | none => false
 
 /-! ### the router's side (router.go) -/
 
@@ -536,6 +550,34 @@ def step (s : State) (toks : List String) : State × String :=
             | some _ => "other" | none => "none"
           let w := certWindow 0
           s!"certs={c.count} cn={nm c.cn} uris={uris} proof={proof} win={w.1 / 60}/{w.2 / 60} self={if c.signedBy = c.tlsKey then "yes" else "no"}")
+    (s, r.getD "bad-op")
+  | "retry" :: rest =>
+    -- `retry suite=… tlsv=… fails=<n> first=<kind> then=<kind>`: the honest node dials key v; what
+    -- answers presents `first` at the first n attempts and `then` afterwards (kinds: abort — no
+    -- certificate at all, badproof, otherkey — the answering peer's own honest certificate, expired,
+    -- honest — v's own certificate with a fresh proof)
+    let r : Option String := do
+      let m ← kv rest
+      if m.length ≠ 5 then none
+      let suite ← (← get m "suite") |> suiteOf
+      let tlsv ← get m "tlsv"
+      if tlsv ≠ "12" ∧ tlsv ≠ "13" then none
+      let fails ← (← get m "fails").toNat?
+      if fails > 6 then none
+      let n : Nonce := .hon 1
+      let certOf : String → Option (Option (List Cert)) := fun k => match k with
+        | "abort" => some none
+        | "honest" => some ((certFor .new 1 11 n).map fun c => [c])
+        | "badproof" => some ((certFor .new 1 11 n).map fun c => [{ c with ext := some (.junk 0) }])
+        | "otherkey" => some ((certFor .new 2 12 n).map fun c => [c])
+        | "expired" => some ((certFor .new 1 11 n).map fun c => [{ c with validity := .expired }])
+        | _ => none
+      let first ← certOf (← get m "first")
+      let thn ← certOf (← get m "then")
+      let attempts := List.replicate fails first ++ List.replicate (Generated.maxRetryConnect + 1) thn
+      pure (match newTLSConn Generated.maxRetryConnect suite 1 n attempts with
+        | some i => s!"link=ok attempts={i + 1}"
+        | none => s!"link=fail attempts={Generated.maxRetryConnect}")
     (s, r.getD "bad-op")
   | "pair" :: rest =>
     -- `pair suite=… them=<v|o>`: the honest holder of `a`… two real nodes: h dials v believing it is `them`
